@@ -314,6 +314,8 @@ def eval_teardown(P, T, fname, args=None, reset=()):
         else:
             blocks = {nd: [k, v] for nd, k, v in zip(M.nodes, M.elems, M.vals)}
         a = args(M) if args else [SELF]
+        if a is None:
+            continue          # a scenario the routine is never called in (an internal helper with a precondition)
         it = cint.CInt(P, fn, atoms=M.atoms, call=call, recurse=True, mem=M.mem, max_steps=6000, max_depth=10, strict=True)
         it.atoms = M.atoms
         try:
